@@ -130,3 +130,65 @@ func H_parent_chain() {
 	}
 	symx.Reach("end")
 }
+
+// H_self_inherited: self:: names the class the code is WRITTEN in even when that class does not
+// declare the member itself (it inherits it) and a class further down overrides it; static:: names
+// the class the call was made on. Chain K0 <- K1 <- K2 <- K3; lab() is declared by K0 and by any
+// subset of the others; K1 and K2 host the callers.
+func H_self_inherited() {
+	const n = 4
+	var def [n]bool
+	def[0] = true
+	for i := 1; i < n; i++ {
+		def[i] = symx.Choose("def"+itoa(i), 2) == 1
+	}
+	src := ""
+	for i := 0; i < n; i++ {
+		src += "class K" + itoa(i)
+		if i > 0 {
+			src += " extends K" + itoa(i-1)
+		}
+		src += " {\n"
+		if def[i] {
+			src += "  public static function lab() { return " + itoa(i) + "; }\n"
+		}
+		if i == 1 || i == 2 {
+			src += "  public static function vs" + itoa(i) + "() { return self::lab(); }\n  public static function vt" + itoa(i) + "() { return static::lab(); }\n"
+			src += "  public function is" + itoa(i) + "() { return self::lab(); }\n  public function it" + itoa(i) + "() { return static::lab(); }\n"
+		}
+		src += "}\n"
+	}
+	nearest := func(from int) int {
+		for i := from; i >= 0; i-- {
+			if def[i] {
+				return i
+			}
+		}
+		return -1
+	}
+	var want []int
+	for i := 1; i <= 2; i++ {
+		for j := i; j < n; j++ {
+			src += "emit(K" + itoa(j) + "::vs" + itoa(i) + "()); emit(K" + itoa(j) + "::vt" + itoa(i) + "()); $o = new K" + itoa(j) + "(); emit($o->is" + itoa(i) + "()); emit($o->it" + itoa(i) + "());\n"
+			want = append(want, nearest(i), nearest(j), nearest(i), nearest(j))
+		}
+	}
+	s := sx.Compile(src)
+	symx.Assert(s.Err == nil, "declarations parse")
+	if s.Err != nil {
+		return
+	}
+	_, ctl := s.Run()
+	symx.Assert(ctl == nil, "script runs")
+	if ctl != nil {
+		return
+	}
+	symx.Assert(len(sx.Log) == len(want), "self-inherited: one value per call")
+	if len(sx.Log) != len(want) {
+		return
+	}
+	for i := range want {
+		symx.Assert(sx.Log[i].Kind == 'i' && sx.Log[i].I == want[i], "self:: binds to the class the call is written in (also when it inherits the member); static:: to the class the call was made on")
+	}
+	symx.Reach("end")
+}
